@@ -9,6 +9,29 @@
 #include <cstdlib>
 #include <new>
 
+// The last allocations (requested size / rounded size): the padding behind the requested bytes keeps its fill pattern
+// unless somebody writes behind the block - worlds look a delivered buffer up here to learn how large it really is.
+struct SimAllocRec
+{
+  void* p;
+  std::size_t n, r;
+};
+inline SimAllocRec g_sim_allocs[256];
+inline unsigned g_sim_alloc_pos = 0;
+inline void sim_alloc_note(void* p, std::size_t n, std::size_t r)
+{
+  g_sim_allocs[g_sim_alloc_pos++ % 256] = SimAllocRec{ p, n, r };
+}
+inline const SimAllocRec* sim_alloc_find(const void* p)
+{
+  for (unsigned k = 0; k < 256; k++) {
+    const SimAllocRec& a = g_sim_allocs[(g_sim_alloc_pos + 255 - k) % 256];
+    if (a.p == p)
+      return &a;
+  }
+  return nullptr;
+}
+
 inline void* sim_aligned_alloc_nothrow(std::size_t n)
 {
   if (sim::host_alloc_should_fail())
@@ -20,8 +43,10 @@ inline void* sim_aligned_alloc_nothrow(std::size_t n)
   if (r < n || r > ((std::size_t)1 << 28))
     return nullptr; // the simulated host has no room for requests above 256 MiB
   void* p = std::aligned_alloc(align, r);
-  if (p)
+  if (p) {
     __builtin_memset(p, 0xA5, r);
+    sim_alloc_note(p, n, r);
+  }
   return p;
 }
 inline void* sim_aligned_alloc(std::size_t n)
@@ -41,6 +66,7 @@ inline void* sim_aligned_alloc(std::size_t n)
   if (!p)
     throw std::bad_alloc();
   __builtin_memset(p, 0xA5, r); // whatever reads a fresh block (or its padding) sees the same bytes in every execution
+  sim_alloc_note(p, n, r);
   return p;
 }
 void* operator new(std::size_t n)
